@@ -17,6 +17,14 @@ func pureInstr(in ssa.Instruction) bool {
 	case *ssa.DebugRef:
 		return true
 	case *ssa.BinOp:
+		if in.Op == token.QUO || in.Op == token.REM {
+			if c, ok := in.Y.(*ssa.Const); ok && c.Value != nil {
+				if _, isInt := isInteger(in.X.Type()); isInt && c.Int64() != 0 && c.Int64() != -1 {
+					return true
+				}
+			}
+			return false
+		}
 		switch in.Op {
 		case token.ADD, token.SUB, token.MUL, token.EQL, token.NEQ, token.LSS, token.LEQ, token.GTR, token.GEQ:
 			if _, ok := isInteger(in.X.Type()); ok {
